@@ -203,14 +203,40 @@ Proof. exact (recovery_dominates_few_proved _ _). Qed.
 (* for every valid event and generator state, regeneration yields a stored event and a reported mapping that are a
    `consistent_substitution` (Proofs.v): one map m, the identity on storage IDs, sends every declared raw ID to a
    storage ID; every ID, parent and reference field of the argument rows, creates and updates is rewritten by m;
-   the reported pairs are exactly (raw, m raw) for the declared non-singleton rows; no raw ID remains *)
+   the reported pairs are exactly (raw, m raw) for the declared non-singleton rows; no raw ID remains.
+   One hypothesis while finding F46 is open: `arg_fields_closed` - every RecordID field of the argument rows, the plain
+   (AddField) ones included, holds 0, a storage ID or the raw ID of an argument row.  Validation guarantees it for the
+   reference fields (AddRefField) only; once validateObjectIDs checks every RecordID field (translator flag
+   c04_arg_plain_checked) the left disjunct holds and nothing is asked. *)
 Theorem substitution_consistent :
   forall g ev g' ev' rep,
   valid ev = true -> Forall single_ok (e_creates ev) -> c04_first_user_id <= g ->
   room 0 g (e_arg ev ++ e_creates ev) ->
+  c04_arg_plain_checked = true \/ arg_fields_closed ev ->
   regenerate g ev = (g', ev', rep) ->
   consistent_substitution ev ev' rep.
-Proof. intros g ev g' ev' rep Hv Hs Hg Hr. exact (substitution_proved _ _ g ev g' ev' rep Hv Hs Hg Hr (or_introl plans_shared)). Qed.
+Proof. intros g ev g' ev' rep Hv Hs Hg Hr Hc. exact (substitution_proved _ _ g ev g' ev' rep Hv Hs Hg Hr (or_introl plans_shared) Hc). Qed.
+
+(* F46: without that check a plain RecordID field of an argument row that holds a raw ID declared by a CUD row of the
+   same event (or by nobody) is silently overwritten with 0 - the reference is lost, not substituted *)
+Theorem substitution_refuted_for_plain_argument_fields :
+  c04_arg_plain_checked = false ->
+  exists g ev g' ev' rep, valid ev = true /\ c04_first_user_id <= g /\ room 0 g (e_arg ev ++ e_creates ev)
+    /\ regenerate g ev = (g', ev', rep)
+    /\ In (2, 200002) rep                                              (* the client is told 2 -> 200002 ... *)
+    /\ e_arg ev' = [mkRow 200001 0 [0; 0; 0] 0]                         (* ... but the argument's field that held 2 now holds 0 *)
+    /\ ~ consistent_substitution ev ev' rep.
+Proof.
+  intros H. first
+  [ exfalso; vm_compute in H; discriminate H
+  | exists 200001, (mkEv false [mkRow 1 0 [0; 0; 2] 0] [mkRow 2 0 [0; 0; 0] 0] []);
+    eexists; eexists; eexists;
+    split; [reflexivity|]; split; [vm_compute; discriminate|]; split; [apply roomb_sound; reflexivity|];
+    split; [vm_compute; reflexivity|]; split; [right; left; reflexivity|]; split; [reflexivity|];
+    intros (m & FIX & _ & SA & _ & _ & REP & _);
+    assert (M2 : 200002 = m 2) by (apply (REP 2 200002); right; left; reflexivity);
+    cbn in SA; inversion SA as [[E1 E2]]; congruence ].
+Qed.
 
 (* ================= 4. the link to the trace checker ================= *)
 (* `model_trace st h` is the trace the model itself produces for h (inputs + its outputs as observations).
@@ -221,10 +247,11 @@ Proof. intros g ev g' ev' rep Hv Hs Hg Hr. exact (substitution_proved _ _ g ev g
 Theorem model_traces_satisfy_the_oracle :
   forall h, bounded h -> singles_ok h -> explicit_apart h ->
   c04_sync_prepass = true \/ explicit_free h ->
+  c04_arg_plain_checked = true \/ args_closed h ->
   satisfies (model_trace st_init h) = true.
 Proof.
-  intros h HB HS HX HP.
-  exact (model_satisfies_proved _ _ h HB HS (or_introl arg_pass_syncs) (or_introl plans_shared) HX HP singleton_slot_guarded).
+  intros h HB HS HX HP HC.
+  exact (model_satisfies_proved _ _ h HB HS (or_introl arg_pass_syncs) (or_introl plans_shared) HX HP singleton_slot_guarded HC).
 Qed.
 
 (* ================= 5. why the repairs were needed (model variants selected by explicit flags) ================= *)
@@ -244,9 +271,10 @@ Theorem substitution_consistent_with_separate_plans :
   forall au g ev g' ev' rep,
   valid ev = true -> Forall single_ok (e_creates ev) -> c04_first_user_id <= g ->
   room 0 g (e_arg ev ++ e_creates ev) -> cud_refs_arg_free ev ->
+  c04_arg_plain_checked = true \/ arg_fields_closed ev ->
   regenerate_gen au false g ev = (g', ev', rep) ->
   consistent_substitution ev ev' rep.
-Proof. intros au g ev g' ev' rep Hv Hs Hg Hr Hf. exact (substitution_proved au false g ev g' ev' rep Hv Hs Hg Hr (or_intror Hf)). Qed.
+Proof. intros au g ev g' ev' rep Hv Hs Hg Hr Hf Hc. exact (substitution_proved au false g ev g' ev' rep Hv Hs Hg Hr (or_intror Hf) Hc). Qed.
 
 (* F41: when the argument pass does not call UpdateOnSync, an explicit argument ID is handed out again
    (the pre-pass of F43 also covers argument rows, so this witness exists only without it) *)
@@ -305,7 +333,7 @@ Proof. vm_compute. repeat split. Qed.
 
 Example link_nonvacuous :
   let h := ex_history ++ [IEvent 1 ex_event] in
-  explicit_apartb h = true /\ hist_freshb c04_arg_updates_on_sync c04_plans_shared st_init h = true
+  explicit_apartb h = true /\ args_closedb h = true /\ hist_freshb c04_arg_updates_on_sync c04_plans_shared st_init h = true
   /\ satisfies (model_trace st_init h) = true /\ agrees (model_trace st_init h) = true
   /\ length (model_trace st_init h) = 6%nat.
 Proof. vm_compute. repeat split. Qed.
@@ -376,6 +404,7 @@ Print Assumptions log_ids_distinct_refuted_explicit_singleton_id.
 Print Assumptions singleton_created_once.
 Print Assumptions recovery_dominates_log.
 Print Assumptions substitution_consistent.
+Print Assumptions substitution_refuted_for_plain_argument_fields.
 Print Assumptions model_traces_satisfy_the_oracle.
 Print Assumptions substitution_refuted_with_separate_plans.
 Print Assumptions substitution_consistent_with_separate_plans.
